@@ -20,9 +20,27 @@ def serves(rule: str) -> list:
     return SERVES.get(rule, [rule.split(".")[0]])
 
 
+_FROZEN = None
+
+
+def _frozen_floors():
+    global _FROZEN
+    if _FROZEN is None:
+        import json, os
+        path = os.path.join(os.path.dirname(os.path.abspath(__file__)), "floors.json")
+        try:
+            with open(path) as f:
+                _FROZEN = json.load(f).get("floors", {})
+        except OSError:
+            _FROZEN = {}
+    return _FROZEN
+
+
 def rule(rule_id: str, title: str, floor: int = 1, props=None):
+    """Register a rule.  The floor given here is the hand-confirmed count at the time the rule was written; the frozen table
+    eaocheck/floors.json (60 % of the instance count on the clean tree, tools/gen_floors.py) takes precedence."""
     TITLES[rule_id] = title
-    FLOORS[rule_id] = floor
+    FLOORS[rule_id] = _frozen_floors().get(rule_id, floor)
     if props:
         SERVES[rule_id] = list(props)
 
